@@ -316,6 +316,8 @@ class LatCall(Monitor):
 
 
 def setup(concepts, spec):
+    from .. import probes
+    probes.install(['prime'])
     cap = CAP[spec['tier']]
     attach.attach_ctor(concepts)
     attach.attach(concepts.contexts.PrimeMixin, '__getitem__', CtxGetitem(cap))
